@@ -90,8 +90,12 @@ func summaryReturns(callee *ssa.Function, idx int, errForm bool) []*ssa.BasicBlo
 			continue
 		}
 		cst, isConst := res.(*ssa.Const)
-		if !isConst || cst.Value == nil || cst.Value.Kind() != constant.Bool {
-			return nil // computed flag: no summary
+		if !isConst {
+			out = append(out, b) // computed flag: its truth conditions are added by truthAlternatives
+			continue
+		}
+		if cst.Value == nil || cst.Value.Kind() != constant.Bool {
+			return nil
 		}
 		if constant.BoolVal(cst.Value) {
 			out = append(out, b)
@@ -114,16 +118,18 @@ func summaryDominating(call *ssa.Call, idx int, errForm bool) []cond {
 	var common map[string]cond
 	ff := factsOf(callee)
 	for _, rb := range rets {
-		here := map[string]cond{}
-		for _, d := range ff.baseDominatingConds(rb) {
-			here[condKey(d)] = d
-		}
-		if common == nil {
-			common = here
-		} else {
-			for k := range common {
-				if _, ok := here[k]; !ok {
-					delete(common, k)
+		for _, alt := range returnAlternatives(ff, rb, idx, errForm, false) {
+			here := map[string]cond{}
+			for _, d := range alt {
+				here[condKey(d)] = d
+			}
+			if common == nil {
+				common = here
+			} else {
+				for k := range common {
+					if _, ok := here[k]; !ok {
+						delete(common, k)
+					}
 				}
 			}
 		}
@@ -146,7 +152,7 @@ func summarySets(call *ssa.Call, idx int, errForm bool) [][]cond {
 	ff := factsOf(callee)
 	var out [][]cond
 	for _, rb := range rets {
-		for _, s := range ff.baseCondSets(rb) {
+		for _, s := range returnAlternatives(ff, rb, idx, errForm, true) {
 			out = append(out, s)
 			if len(out) > maxCondSets {
 				return nil
@@ -353,4 +359,78 @@ func cluster(fn *ssa.Function) []*ssa.Function {
 		out = append(out, add...)
 	}
 	return out
+}
+
+// returnAlternatives: the alternative condition sets under which return block rb yields the summarised
+// outcome (nil error / true flag): the conditions of reaching rb, and for a computed flag the conditions
+// under which the returned value is true.
+func returnAlternatives(ff *funcFacts, rb *ssa.BasicBlock, idx int, errForm, pathSensitive bool) [][]cond {
+	var reach [][]cond
+	if pathSensitive {
+		reach = ff.baseCondSets(rb)
+	} else {
+		reach = [][]cond{ff.baseDominatingConds(rb)}
+	}
+	if errForm {
+		return reach
+	}
+	ret := rb.Instrs[len(rb.Instrs)-1].(*ssa.Return)
+	res := ret.Results[idx]
+	if _, isConst := res.(*ssa.Const); isConst {
+		return reach
+	}
+	truth := truthAlternatives(ff, res, 0)
+	if len(truth) == 0 {
+		return reach // nothing known about the computed flag beyond reaching the return
+	}
+	var out [][]cond
+	for _, r := range reach {
+		for _, t := range truth {
+			out = append(out, append(append([]cond{}, r...), t...))
+		}
+	}
+	return out
+}
+
+// truthAlternatives: alternative condition sets under which the bool value v is true.
+func truthAlternatives(ff *funcFacts, v ssa.Value, depth int) [][]cond {
+	if depth > 4 {
+		return nil
+	}
+	switch x := v.(type) {
+	case *ssa.BinOp:
+		switch x.Op {
+		case token.EQL, token.NEQ, token.LSS, token.LEQ, token.GTR, token.GEQ:
+			return [][]cond{{cond{V: x, Pos: true, At: x.Block()}}}
+		}
+	case *ssa.UnOp:
+		if x.Op == token.NOT {
+			return [][]cond{{cond{V: x.X, Pos: false, At: x.Block()}}}
+		}
+	case *ssa.Phi:
+		var out [][]cond
+		for i, e := range x.Edges {
+			pred := x.Block().Preds[i]
+			base := append([]cond{}, ff.baseDominatingConds(pred)...)
+			if ec, ok := edgeCond(pred, x.Block()); ok {
+				base = append(base, ec)
+			}
+			if c, ok := e.(*ssa.Const); ok {
+				if c.Value != nil && c.Value.Kind() == constant.Bool && constant.BoolVal(c.Value) {
+					out = append(out, base)
+				}
+				continue
+			}
+			sub := truthAlternatives(ff, e, depth+1)
+			if len(sub) == 0 {
+				out = append(out, base)
+				continue
+			}
+			for _, t := range sub {
+				out = append(out, append(append([]cond{}, base...), t...))
+			}
+		}
+		return out
+	}
+	return nil
 }
